@@ -14,7 +14,8 @@ from checks import gentypes
 from vlib.common import Inconclusive
 
 P = lambda name, *a: ('path', name, tuple(a))
-LISTED_ENUM = [b'ONE', b'TWO_B']
+LISTED_ENUM = [b'ONE', b'TWO_B', b'HTTP_2', b'SHA3_512']          # TestEnum of the IR family, in declaration order
+LISTED_IDENT = {b'ONE': 'One', b'TWO_B': 'TwoB', b'HTTP_2': 'Http2', b'SHA3_512': 'Sha3512'}
 
 
 def enum_grammar(s):
@@ -58,17 +59,22 @@ MODELS = [
 def run(rep, tier):
     prog = gentypes.types_program()
     K = 8 if tier == 'quick' else 12
-    rep.bounds['enum'] = f'all valid-UTF-8 names of <= {K} bytes; listed values ONE, TWO_B; default and exhaustive configuration'
+    rep.bounds['enum'] = f'all valid-UTF-8 names of <= {K} bytes; listed values ONE, TWO_B, HTTP_2, SHA3_512 (digit-led segments included); default and exhaustive configuration'
     run_enum(rep, prog, K)
+    run_enum_serialize(rep, prog)
     from checks import c02
     c02.run_union(rep, prog, 'C10')
-    ops = [{'op': 'gen_enum', 'text_hex': b'X9'.hex()}, {'op': 'gen_enum', 'text_hex': b'ONE'.hex()}, {'op': 'gen_enum', 'text_hex': b'one'.hex()}]
+    # native twins: every listed value and some unlisted ones through from_str, from_plain and the serde-derived JSON path
+    # (the derive expansion is not executed symbolically); all paths must agree and round-trip the spelling
+    texts = list(LISTED_ENUM) + [b'X9', b'one', b'HTTP2', b'SHA3512', b'TWO__B', b'TWOB']
+    ops = [{'op': 'gen_enum', 'text_hex': t.hex()} for t in texts]
     res = replay(ops)
-    rep.replayed += 3
-    want = [('Unknown(X9)', 'err'), ('One', 'One'), ('err', 'err')]
-    for o, r, w in zip(ops, res, want):
-        if (r.get('default'), r.get('exhaustive')) != w:
-            rep.violation('C10:native-twin', f'{o}: native {r}, expected (default, exhaustive) = {w}', {'op': o, 'native': r})
+    rep.replayed += len(ops)
+    for t, o, r in zip(texts, ops, res):
+        wf = re.fullmatch(rb'[A-Z0-9_]+', t) is not None
+        w = (LISTED_IDENT.get(t) or (f'Unknown({t.decode()})' if wf else 'err'), LISTED_IDENT.get(t, 'err'))
+        if (r.get('default'), r.get('exhaustive')) != w or not r.get('consistent'):
+            rep.violation('C10:native-twin', f'enum text {t!r}: native {r}, expected (default, exhaustive) = {w} on every entry path with an exact round trip', {'op': o, 'native': r})
     rep.assumptions += ['serde-derive expansions of the generated enum (untagged Unknown arm, Content buffering) are not executed: the enum is entered through its generated FromStr/FromPlain (which the derive-free paths share with deserialization via Variant)',
                         'union documents arrive as key/value events; payloads are abstract tokens (their losslessness is C13)']
     rep.outside += [f'names longer than {K} bytes', 'definitions outside the IR family']
@@ -135,11 +141,49 @@ def run_enum(rep, prog, K):
             finish_engine(rep, it)
 
 
+def run_enum_serialize(rep, prog):
+    """the serde-derived Serialize of the generated enum (executed from MIR against a recorder): every listed variant is written as
+    a unit variant whose wire name is exactly its declared value"""
+    def T_rec_unit_variant(it, ctx, args, st):
+        rec_event(st, 'unit_variant', bstr_py(sval(st, args[3])))
+        yield st, it.ok(UNIT)
+    for cfg in ('types', 'exhaustive_types'):
+        fns = gentypes.gen_fn(prog, cfg, 'p::test_enum', 'serialize', arg0='TestEnum')
+        if len(fns) != 1:
+            raise Inconclusive(f'C10 harness: {cfg} <TestEnum as Serialize>::serialize not unique: {fns}')
+        tm = dict(models_serde.TMODELS)
+        tm[('Rec', 'Serializer', 'serialize_unit_variant')] = T_rec_unit_variant
+        it = Interp(prog, MODELS + models_serde.MODELS + models_std.MODELS, tm, unwind=8)
+        decl = prog.src.enum(f'{gentypes.CRATE}::{cfg}::p::test_enum::TestEnum')
+        for name in LISTED_ENUM:
+            ident = LISTED_IDENT[name]
+            if ident not in decl.index:
+                rep.violation('C10:enum:serialize', f'{cfg}: the generated enum has no variant {ident} for the listed value {name.decode()}', {})
+                continue
+            i = decl.index[ident]
+            st = St()
+            v = Enum(decl, bv(decl.variants[i][1]), ((i, Agg(ident, ())),))
+            outs = list(it.run(fns[0], [st.ref(v), Agg('Rec', ())], st, {'__S': ('path', 'Rec', ()), 'S': ('path', 'Rec', ())}))
+            rep.states += len(outs)
+            ev = outs[0][0].aux.get('rec', ()) if len(outs) == 1 and not is_abnormal(outs[0][1]) else None
+            good = ev == (('unit_variant', name),)
+            rep.query(f'enum:{cfg}:serialize:{name.decode()}:wire-name==declared-value', 'unsat' if good else 'sat', 0.0, events=repr(ev)[:80])
+            if not good:
+                op = {'op': 'gen_enum', 'text_hex': name.hex()}
+                r, r2 = replay([op])[0], replay([op], 'release')[0]
+                rep.replayed += 1
+                if not r.get('consistent') and not r2.get('consistent'):
+                    rep.violation('C10:enum:serialize', f'{cfg}: listed value {name.decode()} is serialized as {ev!r}; native {r}', {'op': op, 'native': r})
+                else:
+                    rep.inconc(f'model mismatch C10 enum serialize {cfg} {name!r}: events {ev!r}, native consistent')
+        finish_engine(rep, it)
+
+
 def report_enum(rep, cfg, b, what):
     op = {'op': 'gen_enum', 'text_hex': b.hex()}
     r, r2 = replay([op])[0], replay([op], 'release')[0]
     rep.replayed += 1
-    listed = {b'ONE': 'One', b'TWO_B': 'TwoB'}
+    listed = LISTED_IDENT
     wf = re.fullmatch(rb'[A-Z0-9_]+', b) is not None
     want_default = listed.get(b) or (f'Unknown({b.decode()})' if wf else 'err')
     want_exh = listed.get(b, 'err')
